@@ -277,7 +277,10 @@ var kindConvs = []kindConv{
 	intConv("uint8", 0, 255, func(i int64) uint8 { return uint8(i) }),
 	intConv("uint16", 0, 65535, func(i int64) uint16 { return uint16(i) }),
 	intConv("uint32", 0, math.MaxUint32, func(i int64) uint32 { return uint32(i) }),
-	intConv("uint64", 0, math.MaxInt64, func(i int64) uint64 { return uint64(i) }),
+	{"uint64", func(n json.Number) (any, bool) {
+		u, err := strconv.ParseUint(string(n), 10, 64)
+		return u, err == nil
+	}},
 }
 
 // replace every number leaf by another representation of the same value (chosen per leaf)
@@ -325,7 +328,8 @@ var c14Exprs = []string{
 	"a + b", "a - b", "a * b", "a // b", "a % b", "- a", "+ a", "a == b", "a != b", "a < b", "a <= b", "a > b", "a >= b", "a == `2`", "l[?@ > `1`]", "l[?@ == a]",
 	"sort(l)", "sort_by(o, &n)[*].n", "max(l)", "min(l)", "max_by(o, &n).n", "min_by(o, &n).n", "sum(l)", "avg(l)", "abs(c)", "ceil(h)", "floor(h)", "type(a)", "to_number(a)",
 	"!a", "a && b", "a || b", "contains(l, a)", "contains(l, `2`)", "l[a]", "length(l) == a", "not_null(a)", "to_array(a)", "[a, b] == [`2`, `3`]", "{x: a} == {x: `2`}",
-	"pad_left('x', a)", "pad_right('x', b, '-')", "split('a,b,c,d', ',', a)", "replace('aaaa', 'a', 'b', a)", "find_first('abcabc', 'b', a)", "find_last('abcabc', 'b', z, b)", "find_first('abc', 'c', h)", "pad_left('x', h)",
+	"pad_left('x', a)", "pad_right('x', b, '-')", "split('a,b,c,d', ',', a)", "replace('aaaa', 'a', 'b', a)", "find_first('abcabc', 'b', a)", "find_last('abcabc', 'b', z, b)", "find_first('abc', 'c', h)", "pad_left('x', z)",
+	"h < c", "h <= h", "sort([h, c, a])", "max([h, c])", "l[?@ < h]", "h == c", "min_by(o, &n).n", "h - c", "h + a",
 	"a / a", "h + h", "h * a", "(a + b) * c", "l[*] | [?@ >= a]", "zip(l, l)", "merge({k: a}, {j: b})", "join('', map(&to_string(type(@)), l))", "group_by(o, &to_string(type(n)))", "o[?n == a].n", "h // a", "c // a", "c % a", "- c // a",
 }
 
@@ -339,6 +343,9 @@ func genC14(tier, out string, sum *Summary) {
 	id := 0
 	base := func() map[string]any {
 		nums := []string{"0", "1", "2", "3", "4", "7", "-7", "-1", "100", "0.5", "2.5", "-2.5", "1.0", "3.0", "127", "255"}
+		if rng.Intn(3) == 0 { // integers beyond the binary64 mantissa and at the 64-bit limits (never representable as floats)
+			nums = []string{"9007199254740992", "9007199254740993", "9007199254740994", "-9007199254740993", "9223372036854775807", "9223372036854775806", "-9223372036854775808", "18446744073709551615", "4611686018427387905", "2", "1"}
+		}
 		pn := func() json.Number { return json.Number(pick(nums)) }
 		pi := func() json.Number { return json.Number(pick([]string{"0", "1", "2", "3", "4", "7"})) }
 		return map[string]any{"a": pi(), "b": json.Number(pick([]string{"1", "2", "3", "5"})), "c": json.Number(pick([]string{"-7", "7", "-1", "9"})), "h": pn(), "z": json.Number("0"),
@@ -387,6 +394,34 @@ func genC14(tier, out string, sum *Summary) {
 			}
 			if ref.Kind == "val" && ref.Value != nil {
 				distinct[e+toJSON(doc)] = true
+			}
+		}
+	}
+	// systematic matrix: every operator x sign / magnitude combinations x every kind (uniform documents)
+	pairs := [][2]string{{"7", "2"}, {"-7", "2"}, {"7", "-2"}, {"-7", "-2"}, {"2.5", "-0.5"}, {"-2.5", "0.5"}, {"0", "3"}, {"3", "3"},
+		{"9007199254740992", "9007199254740993"}, {"9007199254740993", "9007199254740992"}, {"9223372036854775806", "9223372036854775807"}, {"-9223372036854775808", "-9223372036854775807"},
+		{"4611686018427387904", "4611686018427387905"}, {"18446744073709551614", "18446744073709551615"}, {"127", "-128"}, {"255", "1"}}
+	ops := []string{"a < b", "a <= b", "a > b", "a >= b", "a == b", "a != b", "a + b", "a - b", "a * b", "a / b", "a // b", "a % b", "- a // b", "max([a, b])", "min([a, b])", "sort([a, b])", "[a, b][?@ > $.a]", "[a, b][?@ <= $.b]", "max_by([{n: a}, {n: b}], &n).n", "sort_by([{n: a}, {n: b}], &n)[0].n", "abs(a)", "a // b * b + a % b", "contains([a], b)", "a && b", "type(a)"}
+	for _, pr := range pairs {
+		docJ := map[string]any{"a": json.Number(pr[0]), "b": json.Number(pr[1])}
+		for _, e := range ops {
+			ref := search(e, docJ)
+			for _, k := range kindConvs {
+				va, oka := k.conv(json.Number(pr[0]))
+				vb, okb := k.conv(json.Number(pr[1]))
+				if !oka || !okb {
+					continue
+				}
+				d2 := map[string]any{"a": va, "b": vb}
+				o := search(e, d2)
+				id++
+				sum.count("matrix")
+				sh.Add(fmt.Sprintf("BC %d %s %s false %s", id, hx(e), coqValue(d2), coqObs(o)))
+				sum.Index[strconv.Itoa(id)] = map[string]any{"expr": e, "doc": fmt.Sprintf("%#v", d2), "observed": obsJSON(o)}
+				if !sameObs(ref, o, false) {
+					sum.direct("kind-dependence", e, docJ, fmt.Sprintf("with json.Number operands %s; with %s operands (%#v) it gives %s", describe(ref), k.name, d2, describe(o)))
+				}
+				distinct[e+pr[0]+pr[1]] = true
 			}
 		}
 	}
